@@ -83,6 +83,7 @@ static inline bool ulifo_push(struct ulifo *ulifo, void *opaque)
         return false;
     uring_elem_set(&ulifo->uring, index, opaque);
     uring_lifo_push(&ulifo->uring, &ulifo->lifo_carrier, index);
+    UVERIF_POOL(UVERIF_LIFO_PUSHED, ulifo, opaque);
     return true;
 }
 
@@ -98,6 +99,7 @@ static inline void *ulifo_pop_internal(struct ulifo *ulifo)
     if (index == URING_INDEX_NULL)
         return NULL;
     opaque = uring_elem_get(&ulifo->uring, index);
+    UVERIF_POOL(UVERIF_LIFO_POPPED, ulifo, opaque);
     uring_elem_set(&ulifo->uring, index, NULL);
     uring_lifo_push(&ulifo->uring, &ulifo->lifo_empty, index);
     return opaque;
